@@ -102,3 +102,50 @@ pub mod rustix_fs {
 pub uninterp spec fn requested_passthrough_mode() -> u32;
 pub uninterp spec fn requested_passthrough_flags() -> u32;
 pub uninterp spec fn requested_passthrough_fd(which: int) -> int;
+// ---- the raw openat2(2) call (libc::syscall is variadic; R12 gives it a fixed signature)
+pub uninterp spec fn fresh_kernel_fd(fd: int) -> bool;   // returned by a successful syscall just now
+#[verifier::external_body]
+pub struct CStringK { _p: () }
+impl CStringK { pub uninterp spec fn view(&self) -> Seq<u8>; }
+impl Path {
+    /// utils/path.rs `ToCString for Path`: copies the bytes up to the first NUL (not extracted: iterator
+    /// chain); the precondition makes "up to the first NUL" mean "all of them" (C04: no silent truncation)
+    #[verifier::external_body]
+    pub fn to_c_string(&self) -> (r: CStringK)
+        requires no_nul(self@)                    // [C04.openat2.path_has_no_interior_nul]
+        ensures r@ == self@
+    { unimplemented!() }
+}
+#[verifier::external_body]
+pub fn sys_openat2(dirfd: BorrowedFd<'_>, path: &CStringK, how: &syscalls::OpenHow, size: usize) -> (r: i32)
+    requires
+        valid_dirfd(dirfd.id@),
+        resolve_confined(how.resolve),                                  // [C01+C05+C07.openat2.confined_by_in_root_or_beneath]
+        how.flags & 0o2000000u64 == 0o2000000u64,                       // [C05+C11.openat2.cloexec]
+    ensures
+        r >= 0 ==> fresh_kernel_fd(r as int) && last_openat2(r as int, dirfd.id@, path@, *how),
+{ unimplemented!() }
+pub uninterp spec fn last_openat2(fd: int, dirfd: int, path: Seq<u8>, how: syscalls::OpenHow) -> bool;
+/// A4: what the kernel guarantees about the object openat2(dirfd, path, how) returned
+pub open spec fn a4_facts(id: int, d: int, p: Seq<u8>, how: syscalls::OpenHow) -> bool {
+    kflags64(id) == how.flags
+    && (how.flags & 0o2000000u64 == 0o2000000u64 ==> has(kflags(id), libc::O_CLOEXEC))
+    && resolve_bits_of(id) == how.resolve
+    && (how.resolve & libc::RESOLVE_IN_ROOT == libc::RESOLVE_IN_ROOT && lineage(d) ==> lineage(id))
+    && (beneath_noxdev(how.resolve) ==> mnt_of(id) == mnt_of(d))
+    && resolved_from(id, d, p, how.flags & (libc::O_NOFOLLOW as u64) != 0)
+}
+impl IOError {
+    /// A7: after a failing syscall errno is set
+    #[verifier::external_body]
+    pub fn last_os_error() -> (r: IOError) ensures r.raw() is Some { unimplemented!() }
+}
+impl OwnedFd {
+    /// taking ownership of a raw number: only for a descriptor the kernel has just handed to us (C11)
+    #[verifier::external_body]
+    pub fn from_raw_fd(fd: i32) -> (r: OwnedFd)
+        requires fd >= 0, fresh_kernel_fd(fd as int)                     // [C11.from_raw_fd.only_a_descriptor_the_kernel_just_returned]
+        ensures raw_of(r.id()) == fd as int,
+            forall|d: int, p: Seq<u8>, how: syscalls::OpenHow| #[trigger] last_openat2(fd as int, d, p, how) ==> a4_facts(r.id(), d, p, how),
+    { unimplemented!() }
+}
